@@ -661,6 +661,11 @@ func main() {
 	writeConsts(filepath.Join(outDir, "Consts.lean"), cs)
 	funcsLean, fragStatus := translateFrag()
 	writeIfChanged(filepath.Join(outDir, "Funcs.lean"), funcsLean)
+	contLean, contStatus := translateContainers()
+	writeIfChanged(filepath.Join(outDir, "Containers.lean"), contLean)
+	for k, v := range contStatus {
+		fragStatus[k] = v
+	}
 	if len(os.Args) > 3 {
 		b, _ := json.MarshalIndent(map[string]any{"lockTable": tab, "effects": effs, "consts": cs, "regeneratedFunctions": fragStatus}, "", " ")
 		writeIfChanged(os.Args[3], string(b)+"\n")
